@@ -5,6 +5,7 @@ import FlowRecordProofs.Lemmas.StreamRoundtrip
 import FlowRecordProofs.Lemmas.Utf8
 import FlowRecordProofs.Lemmas.StreamExample
 import FlowRecordProofs.Lemmas.FieldPack
+import FlowRecordProofs.Lemmas.StreamFailed
 import FlowRecord.Model.Stream
 /-!
 C01 — record stream round-trip preserves every record exactly. Property theorems only.
@@ -67,6 +68,18 @@ theorem C01_stream_roundtrip_continued (hashOf : Utf8.PyStr → List (Utf8.PyStr
     (hok : HistOK hashOf st.registry objs) (hsz : ∀ b ∈ frames, b.length < 4294967296) :
     readFramesH hashOf (fuel + frames.length) st.registry (streamOf frames) = (rvOfList objs, .eof) :=
   read_writeAll hashOf objs st st' frames fuel hw hhdr hok hsz
+
+/-- The stream theorem with FAILING writes in between: a write may raise while its object is being packed, after any
+    number `k` of the object's descriptors were registered (their frames are on the stream, the object's frame is not),
+    and the caller carries on with the same writer. For every admissible history of that kind on a fresh writer, the
+    reader returns exactly the objects whose write succeeded - same order, each as written - and ends cleanly; the
+    failed objects themselves are unconstrained. -/
+theorem C01_stream_roundtrip_failed_writes (hashOf : Utf8.PyStr → List (Utf8.PyStr × Utf8.PyStr) → Nat)
+    (e : PV × Option Nat) (es : List (PV × Option Nat)) (st' : WState) (frames : List Bytes)
+    (hw : writeHist WState.init (e :: es) = some (st', frames))
+    (hok : HistOKF hashOf [] (e :: es)) (hsz : ∀ b ∈ frames, b.length < 4294967296) :
+    readAll hashOf (streamOf frames) = (rvOfList (okObjs (e :: es)), .eof) :=
+  readAll_writeHist hashOf e es st' frames hw hok hsz
 
 /-- S1, text including undecodable bytes: for EVERY byte string — valid UTF-8 or not — decoding it with
     `surrogateescape` and encoding the result gives exactly the original bytes back. -/
@@ -148,3 +161,12 @@ example : FieldPack.WFT (fun _ t => t) (.list .int) (.list [.int 80, .int 443]) 
   ⟨by simp, trivial, by simp, trivial, trivial⟩
 example : FieldPack.WFT (fun _ t => t) .ip (.ip 6 4294967296) := Or.inr ⟨rfl, by decide, by decide⟩
 end C01_nonvacuous
+
+-- non-vacuity of C01_stream_roundtrip_failed_writes: a concrete history (first write of the type fails after its
+-- descriptor frame, the next record is good) meets every hypothesis (Lemmas/StreamFailed.lean, `histF`)
+example : ∀ st' frames, writeHist WState.init [(StreamExample.o1, some 1), (StreamExample.o2, none)] = some (st', frames) →
+    (∀ b ∈ frames, b.length < 4294967296) →
+    readAll StreamExample.h (streamOf frames) = (rvOfList [StreamExample.o2], .eof) :=
+  fun st' frames hw hsz =>
+    C01_stream_roundtrip_failed_writes StreamExample.h _ _ st' frames hw StreamExample.histF hsz
+
